@@ -11,38 +11,48 @@
 (* may also be fed data packets of its own stream for ever (a stream that is alive and never closes):     *)
 (*   _read_until_close:          start0; for each data packet: if now-start0 > total: AdbTimeoutError     *)
 (* Every transport call costs at least one tick.                                                          *)
+(* The converse bound (NotEarly): the library gives up only when one of ITS OWN waits has lasted longer    *)
+(* than its limit - the wait for the rest of a header or of a payload (each has a timer of its own), the  *)
+(* wait for the awaited packet, the whole command.  A link on which every single wait stays below the     *)
+(* limit is healthy, however long a packet or an exchange takes as a whole.  Ghost variable `ipstart` is  *)
+(* the start of the part being read, kept independently of the algorithm's own `pstart`.                  *)
+(*   sanity mutation SharePartTimer (seeded change C08-w8-c08-m2): one timestamp per packet, taken before *)
+(*   the header and used for the payload as well - must violate NotEarly                                  *)
 EXTENDS Integers, TLC
 CONSTANTS Grid, None, H, PMax, K,
-          SkipTotal   \* sanity mutation: data packets skip the whole-command check (must violate Bounded)
+          SkipTotal,  \* sanity mutation: data packets skip the whole-command check (must violate Bounded)
+          SharePartTimer
 Max(a, b) == IF a > b THEN a ELSE b
 Min(a, b) == IF a < b THEN a ELSE b
-VARIABLES tt0, rt0, total, now, start, pstart, need, phase, pc, gotdata
-vars == <<tt0, rt0, total, now, start, pstart, need, phase, pc, gotdata>>
+VARIABLES tt0, rt0, total, now, start, pstart, need, phase, pc, gotdata, ipstart, why
+vars == <<tt0, rt0, total, now, start, pstart, need, phase, pc, gotdata, ipstart, why>>
 RT == IF total = None THEN rt0 ELSE Min(rt0, total)
 TT == IF tt0 = None THEN RT ELSE Min(tt0, RT)
 Init == /\ rt0 \in Grid /\ tt0 \in Grid \cup {None} /\ total \in Grid \cup {None}
         /\ now = 0 /\ start = 0 /\ pstart = 0 /\ need = H /\ phase = "hdr" /\ pc = "call" /\ gotdata = FALSE
+        /\ ipstart = 0 /\ why = "none"
 Cost == 1..Max(TT, 1)
 Call == /\ pc = "call"
-        /\ \/ /\ now' = now + Max(TT, 1) /\ pc' = "transportTimeout" /\ UNCHANGED <<need, phase, pstart, start>>
+        /\ \/ /\ now' = now + Max(TT, 1) /\ pc' = "transportTimeout" /\ UNCHANGED <<need, phase, pstart, start, ipstart, why>>
            \/ \E d \in Cost, k \in 0..need :
                 /\ now' = now + d
                 /\ IF need - k = 0
                    THEN IF phase = "hdr"
-                        THEN \E p \in 0..PMax : IF p = 0 THEN /\ pc' = "pktdone" /\ UNCHANGED <<need, phase, pstart>>
-                                                ELSE /\ phase' = "pay" /\ need' = p /\ pstart' = now' /\ pc' = "call"
-                        ELSE /\ pc' = "pktdone" /\ UNCHANGED <<need, phase, pstart>>
-                   ELSE IF now' - pstart > RT THEN /\ pc' = "adbTimeout" /\ UNCHANGED <<need, phase, pstart>>
-                        ELSE /\ need' = need - k /\ pc' = "call" /\ UNCHANGED <<phase, pstart>>
+                        THEN \E p \in 0..PMax : IF p = 0 THEN /\ pc' = "pktdone" /\ UNCHANGED <<need, phase, pstart, ipstart, why>>
+                                                ELSE /\ phase' = "pay" /\ need' = p /\ pstart' = (IF SharePartTimer THEN pstart ELSE now') /\ pc' = "call"
+                                                     /\ ipstart' = now' /\ UNCHANGED why
+                        ELSE /\ pc' = "pktdone" /\ UNCHANGED <<need, phase, pstart, ipstart, why>>
+                   ELSE IF now' - pstart > RT THEN /\ pc' = "adbTimeout" /\ why' = "part" /\ UNCHANGED <<need, phase, pstart, ipstart>>
+                        ELSE /\ need' = need - k /\ pc' = "call" /\ UNCHANGED <<phase, pstart, ipstart, why>>
                 /\ UNCHANGED start
         /\ UNCHANGED <<tt0, rt0, total, gotdata>>
 PktDone == /\ pc = "pktdone"
-           /\ \/ /\ IF now - start > RT THEN pc' = "adbTimeout" /\ UNCHANGED <<need, phase, pstart>>       \* not the awaited packet
-                    ELSE /\ pc' = "call" /\ phase' = "hdr" /\ need' = H /\ pstart' = now
+           /\ \/ /\ IF now - start > RT THEN pc' = "adbTimeout" /\ why' = "wait" /\ UNCHANGED <<need, phase, pstart, ipstart>>       \* not the awaited packet
+                    ELSE /\ pc' = "call" /\ phase' = "hdr" /\ need' = H /\ pstart' = now /\ ipstart' = now /\ UNCHANGED why
                  /\ UNCHANGED <<start, gotdata>>
               \/ /\ total # None /\ gotdata' = TRUE                                                      \* a data packet of the command's own stream
-                 /\ IF ~SkipTotal /\ now > total THEN pc' = "adbTimeout" /\ UNCHANGED <<need, phase, pstart, start>>
-                    ELSE /\ pc' = "call" /\ phase' = "hdr" /\ need' = H /\ pstart' = now /\ start' = now   \* the next read() starts
+                 /\ IF ~SkipTotal /\ now > total THEN pc' = "adbTimeout" /\ why' = "total" /\ UNCHANGED <<need, phase, pstart, start, ipstart>>
+                    ELSE /\ pc' = "call" /\ phase' = "hdr" /\ need' = H /\ pstart' = now /\ start' = now /\ ipstart' = now /\ UNCHANGED why   \* the next read() starts
            /\ UNCHANGED <<tt0, rt0, total, now>>
 Ended == pc \in {"adbTimeout", "transportTimeout"} /\ UNCHANGED vars
 Next == Call \/ PktDone \/ Ended
@@ -53,4 +63,9 @@ Bounded == now <= (IF gotdata THEN Max(total, 0) ELSE 0) + K * (Max(RT, 0) + Max
 Ordered == TT <= RT /\ (total # None => RT <= total)
 \* it can only end with one of the two timeout errors (no fabricated result): the model has no other exit
 RightError == pc \in {"call", "pktdone", "adbTimeout", "transportTimeout"}
+\* the library's own timeout fires only when the wait it belongs to has itself lasted longer than its limit
+NotEarly == pc = "adbTimeout" => CASE why = "part" -> now - ipstart > RT
+                                   [] why = "wait" -> now - start > RT
+                                   [] why = "total" -> now > total
+                                   [] OTHER -> FALSE
 =============================================================================
